@@ -320,6 +320,33 @@ func init() {
 	props["C10"] = func(c *ctx) {
 		c.failureCases("client10", c.pick(12, 120))
 		c.clientBigFrames("client10")
+		// a command in the middle of a receive sequence, with frames (its acknowledge included) already buffered by
+		// an earlier read, or a read boundary inside a frame; and a command after the failure has been reported
+		for i := 0; i < c.pick(30, 300); i++ {
+			idx := c.rng.Intn(len(cmdTable))
+			o, ack := c.command(idx)
+			var stream []byte
+			stream = append(stream, c.smallFrame()...)
+			stream = append(stream, c.unrelatedFrame(ack)...)
+			stream = append(stream, xsens.NewMessage(ack, c.ackPayload(o.name))...)
+			stream = append(stream, c.smallFrame()...)
+			stream = append(stream, c.smallFrame()...)
+			ops := []cop{{kind: "receive"}, {kind: "rawmsg"}, o, {kind: "rawmsg"}, {kind: "msgid"}, {kind: "receive"}, {kind: "rawmsg"},
+				{kind: "receive"}, {kind: "rawmsg"}, {kind: "receive"}, o, {kind: "receive"}}
+			var sch []int
+			switch i % 4 {
+			case 0:
+				sch = nil // everything in one read
+			case 1:
+				sch = []int{len(stream) - 3, 3}
+			case 2:
+				sch = []int{7, len(stream)}
+			default:
+				scheds := c.schedules(len(stream), false)
+				sch = scheds[c.rng.Intn(len(scheds))]
+			}
+			c.emitClient("client10", stream, sch, c.final(), c.rng.Intn(2) == 0, nil, ops)
+		}
 		// rejected frames at every position of a stream of frames
 		for i := 0; i < c.pick(40, 400); i++ {
 			nf := 3 + c.rng.Intn(3)
